@@ -233,6 +233,7 @@ def correspondence(ctx):
         tris = [(Triangle([]), {"kind": "empty", "slices": 0, "cells": 0, "keys": 0})]
         tris += c05.make_triangles(ctx, n, must=c05.MUST[:7])
         c05.roundtrip_batch(ctx, drv, tris, scratch, tag="codec", compressed=False)
+        c05.repr_stream(ctx, drv, scratch, 400 if ctx.thorough else 60)
     order_independence(ctx, 300 if ctx.thorough else 40)
     rejection(ctx, drv, 40 if ctx.thorough else 6)
 
